@@ -2194,7 +2194,7 @@ class Body:
                     c = const_of(o)
                     if c is not None:
                         d[(loc, (k_,))] = c
-                    elif o[0] in ("c", "m") and not o[1][1]:
+                    elif o[0] in ("c", "m") and (not o[1][1] or o[1][1] == ["*"]):
                         for (l2, p2), v2 in list(d.items()):
                             if l2 == o[1][0] and p2 != "variant":
                                 d[(loc, (k_,) + p2)] = v2
@@ -2226,8 +2226,22 @@ class Body:
                 o = rv[2]
                 if o[0] in ("c", "m") and not o[1][1] and (o[1][0], ()) in d and isinstance(d[(o[1][0], ())], bool):
                     d[(loc, ())] = not d[(o[1][0], ())]
-            elif rv[0] == "ref" and rv[1]:
-                kill(rv[2][0])
+            elif rv[0] == "ref":
+                # an assumption about a field of a parameter at entry (`assume` of reachable_cp) is what a reference to that field points at
+                fpr = self._fpath(rv[2][1])
+                base = rv[2][0]
+                if fpr and any(k[0] == "ASSUME" for k in [k0[0] for k0 in d if isinstance(k0[0], tuple)]):
+                    # (`let S { a, b, .. } = &mut self;` goes through one reference to the whole of `self`)
+                    for _ in range(3):
+                        sd = self.single_def(base)
+                        if sd is not None and sd[0] == "assign" and sd[3][0] == "ref" and not [x for x in sd[3][2][1] if x != "*"]:
+                            base = sd[3][2][0]
+                        else:
+                            break
+                if fpr is not None and (("ASSUME", base), fpr) in d:
+                    d[(loc, ())] = d[(("ASSUME", base), fpr)]
+                if rv[1]:
+                    kill(rv[2][0])
         t = self.term(b)
         if t["k"] == "call" and t.get("dest") is not None:
             dl = t["dest"][0]
@@ -2310,6 +2324,13 @@ class Body:
                         if s2[0] == "A" and s2[1] == [xs[-1], []] and s2[2][0] == "use" and s2[2][1][0] in ("c", "m") and not s2[2][1][1][1]:
                             xs.append(s2[2][1][1][0])
                     arm_vals = (xs, {tb: vs[0] for tb, vs in by_t.items() if len(vs) == 1 and tb != t["otherwise"]}, sorted({v for vs in by_t.values() for v in vs}), t["otherwise"])
+            fp_ = self._fpath(p_[1]) if p_ is not None and p_[1] else None
+            if p_ is not None and fp_ and (p_[0], fp_) in d and isinstance(d[(p_[0], fp_)], (bool, int)):
+                # a match on a component of a pair whose parts are known (`match (*has_attr, n) { (true, 0 | 1) => .. }`)
+                val = d[(p_[0], fp_)]
+                val = int(val) if isinstance(val, bool) else val
+                hit = [tb for v_, tb in t["arms"] if (int(v_) if isinstance(v_, str) else v_) == val]
+                succs = hit[:1] if hit else [t["otherwise"]]
             if p_ is not None and not p_[1] and (p_[0], ()) in d:
                 val = d[(p_[0], ())]
                 if isinstance(val, tuple) and val and val[0] == "sym":
@@ -2361,10 +2382,14 @@ class Body:
                 out.append((s_, env2))
         return out
 
-    def reachable_cp(self, start_blocks, cap=40000, avoid=(), cut=()):
-        """Blocks reachable from start_blocks when constants and known variants (through aggregates, moves, `?`) decide the matches they reach."""
+    def reachable_cp(self, start_blocks, cap=40000, avoid=(), cut=(), assume=None):
+        """Blocks reachable from start_blocks when constants and known variants (through aggregates, moves, `?`) decide the matches they reach.
+        `assume`: what is taken to hold at the start - {local: constant} and {("field", parameter, (field index, ..)): constant}."""
         seen, blocks = set(), set()
-        dq = deque((s_, frozenset()) for s_ in start_blocks if s_ not in avoid)
+        env0 = frozenset()
+        if assume:
+            env0 = frozenset((((("ASSUME", k[1]), tuple(k[2])) if isinstance(k, tuple) else (k, ())), v) for k, v in assume.items())
+        dq = deque((s_, env0) for s_ in start_blocks if s_ not in avoid)
         while dq and cap > 0:
             cap -= 1
             b, env = dq.popleft()
